@@ -35,7 +35,9 @@ impl Binders for PatId {
             | Pattern::Project(ProjectionPattern(_, pattern)) => pattern.binders(arena),
             | Pattern::Alias(Alias(pat)) | Pattern::Cons(pat) => pat
                 .iter()
-                .fold(im::HashMap::new(), |binders, item| binders.union(item.binders(arena))),
+                // `union` keeps the receiver's entry on a clash: the later component wins,
+                // as it does when the pattern is resolved lexically
+                .fold(im::HashMap::new(), |binders, item| item.binders(arena).union(binders)),
         }
     }
 }
